@@ -76,7 +76,7 @@ func c05Scenarios(thorough bool) []*explore.Scenario {
 
 // c05Check: linearizability of the writers/readers (Compact is a no-op of the model), scan truthfulness,
 // replay-divergence, and - when the op log was recorded - every crash image of the whole execution.
-func c05Check(c *explore.Ctx, base *explore.Base, sc *explore.Scenario, memo recMemo, lvl2 map[string]bool) func(r *explore.ConcRun) (string, string) {
+func c05Check(c *explore.Ctx, base *explore.Base, sc *explore.Scenario, memo recMemo, lvl2 map[string]string) func(r *explore.ConcRun) (string, string) {
 	lin := linCheck(base)
 	return func(r *explore.ConcRun) (string, string) {
 		if cl, msg := lin(r); msg != "" {
@@ -146,9 +146,14 @@ func c05Check(c *explore.Ctx, base *explore.Base, sc *explore.Scenario, memo rec
 				return false
 			}
 			// second level, once per distinct recovered image: {Compact, Put, Delete} then crash, recover again
-			if rec.After != nil && !lvl2[h] {
-				lvl2[h] = true
-				if msg := c05Level2(c, base, rec, memo); msg != "" {
+			if rec.After != nil {
+				// (memoised by image: the verdict of an image is the same whenever it is reached again)
+				msg, seen := lvl2[h]
+				if !seen {
+					msg = c05Level2(c, base, rec, memo)
+					lvl2[h] = msg
+				}
+				if msg != "" {
 					cls, res = "crash-level2", fmt.Sprintf("crash after %d of %d file-system calls (%s), recovery, then %s", im.Pos, len(log), im.Desc, msg)
 					return false
 				}
@@ -218,11 +223,11 @@ func c05Level2(c *explore.Ctx, base *explore.Base, rec *explore.Recovered, memo 
 
 func runC05(c *explore.Ctx) {
 	memos := map[string]recMemo{}
-	lvl2 := map[string]map[string]bool{}
+	lvl2 := map[string]map[string]string{}
 	runScenarioSet(c, c05Scenarios(c.Thorough()), func(base *explore.Base, sc *explore.Scenario) func(r *explore.ConcRun) (string, string) {
 		if memos[sc.Base] == nil {
 			memos[sc.Base] = recMemo{}
-			lvl2[sc.Base] = map[string]bool{}
+			lvl2[sc.Base] = map[string]string{}
 		}
 		return c05Check(c, base, sc, memos[sc.Base], lvl2[sc.Base])
 	})
